@@ -290,6 +290,23 @@ def exec_model(component, ops_text, timeout=1200):
     return p.stdout.splitlines()
 
 
+# Attribution of oracle messages: a driver serves several properties; a message that starts with property tags
+# ("C07: ...", "C04/C06: ...") counts only in the checks of those properties, an untagged one in every check that
+# runs the component. CURRENT_PROP is set by tops.run; OTHER counts what was left to the other checks.
+CURRENT_PROP = [None]
+OTHER = {}
+
+
+def relevant(msg):
+    m = re.match(r"(C\d\d(?:/C\d\d)*): ", msg)
+    if not m or CURRENT_PROP[0] is None:
+        return True
+    if CURRENT_PROP[0] in m.group(1).split("/"):
+        return True
+    OTHER[m.group(1)] = OTHER.get(m.group(1), 0) + 1
+    return False
+
+
 class CaseResult:
     def __init__(self, cid, ops):
         self.cid, self.ops = cid, ops
@@ -325,7 +342,7 @@ def compare(cases, impl_lines, model_lines, oracle_lines):
         by_id[cid] = cr
     for l in oracle_lines:
         m = re.match(r"ORACLE-FAIL case=(\S+) op=(\d+) (.*)", l)
-        if m and m.group(1) in by_id:
+        if m and m.group(1) in by_id and relevant(m.group(3)):
             by_id[m.group(1)].oracle.append((int(m.group(2)), m.group(3)))
     return res
 
